@@ -2,8 +2,8 @@
 C14 (source tie) — the hand-written models of the "is re-issuance due" tests
 (`KeyObjectSet.requiresReissuance`, `ClassObjects.requiresReissuance`, Ca/Objects.lean) equal the
 definitions that the translator `pure_fns` regenerates from `/repo/src/server/ca/publishing.rs` on
-every run (`Generated/PureFnsC14.lean`: `KM.Gen.KeyObjectSet.requires_reissuance`,
-`KM.Gen.ResourceClassObjects.requires_re_issuance`).
+every run (`Generated/PureFnsC14.lean`: `KM.Gen.C14.KeyObjectSet.requires_reissuance`,
+`KM.Gen.C14.ResourceClassObjects.requires_re_issuance`).
 
 `due_is_reissued`, `nothing_due_nothing_changes` (Props/C14.lean) are about the model's tests.  With
 the two theorems below these are tied to the Rust bodies: `>` vs `>=`, `-` vs `+` of the margin,
@@ -28,14 +28,14 @@ open KM.Ca.Pub
 /-- `KeyObjectSet::requires_reissuance`: generated definition (over `Int`) = model (over `Nat`),
 for every set, every clock value and every margin. -/
 theorem gen_requires_reissuance_eq_model (s : KeyObjectSet) (now hours : Nat) :
-    KM.Gen.KeyObjectSet.requires_reissuance (now : Int) (s.revision.nextUpdate : Int) (hours : Int) =
+    KM.Gen.C14.KeyObjectSet.requires_reissuance (now : Int) (s.revision.nextUpdate : Int) (hours : Int) =
       s.requiresReissuance now hours := by
-  unfold KM.Gen.KeyObjectSet.requires_reissuance KeyObjectSet.requiresReissuance
+  unfold KM.Gen.C14.KeyObjectSet.requires_reissuance KeyObjectSet.requiresReissuance
   rw [decide_eq_decide]
   omega
 
 /-- Model key state ↦ Rust variant. -/
-def shape : ClassObjects → KM.Gen.ResourceClassKeyState
+def shape : ClassObjects → KM.Gen.C14.ResourceClassKeyState
   | .current _ => .Current
   | .staging _ _ => .Staging
   | .old _ _ => .Old
@@ -51,22 +51,22 @@ def oldSet (d : KeyObjectSet) : ClassObjects → KeyObjectSet
 /-- `ResourceClassObjects::requires_re_issuance`: generated definition, with the generated
 set-level test as `due`, = model, for every key state, clock value and margin. -/
 theorem gen_requires_re_issuance_eq_model (co : ClassObjects) (now hours : Nat) (d : KeyObjectSet) :
-    KM.Gen.ResourceClassObjects.requires_re_issuance
+    KM.Gen.C14.ResourceClassObjects.requires_re_issuance
         (fun (s : KeyObjectSet) (h : Int) =>
-          KM.Gen.KeyObjectSet.requires_reissuance (now : Int) (s.revision.nextUpdate : Int) h)
+          KM.Gen.C14.KeyObjectSet.requires_reissuance (now : Int) (s.revision.nextUpdate : Int) h)
         (shape co) co.cur (oldSet d co) (stagingSet d co) (hours : Int) =
       co.requiresReissuance now hours := by
   cases co <;>
-    simp only [KM.Gen.ResourceClassObjects.requires_re_issuance, shape, ClassObjects.cur, oldSet, stagingSet,
+    simp only [KM.Gen.C14.ResourceClassObjects.requires_re_issuance, shape, ClassObjects.cur, oldSet, stagingSet,
       ClassObjects.requiresReissuance, gen_requires_reissuance_eq_model]
 
 /-- Non-vacuity: both answers occur, and the boundary is strict (`now = next_update - margin` is
 not yet due). -/
 example :
-    KM.Gen.KeyObjectSet.requires_reissuance 100 (100 + 7200) 2 = false ∧
-    KM.Gen.KeyObjectSet.requires_reissuance 101 (100 + 7200) 2 = true ∧
-    KM.Gen.ResourceClassObjects.requires_re_issuance (fun (s : Bool) _ => s) .Old false true false 0 = true ∧
-    KM.Gen.ResourceClassObjects.requires_re_issuance (fun (s : Bool) _ => s) .Current false true true 0 = false := by
+    KM.Gen.C14.KeyObjectSet.requires_reissuance 100 (100 + 7200) 2 = false ∧
+    KM.Gen.C14.KeyObjectSet.requires_reissuance 101 (100 + 7200) 2 = true ∧
+    KM.Gen.C14.ResourceClassObjects.requires_re_issuance (fun (s : Bool) _ => s) .Old false true false 0 = true ∧
+    KM.Gen.C14.ResourceClassObjects.requires_re_issuance (fun (s : Bool) _ => s) .Current false true true 0 = false := by
   decide
 
 end KM.Props.C14Src
